@@ -295,6 +295,10 @@ impl Builder {
         match idx {
             Some(idx) => {
                 if idx < self.module.functions.len() {
+                    if self.selected_function != Some(idx) {
+                        // a block index is only meaningful within its own function
+                        self.selected_block = None;
+                    }
                     self.selected_function = Some(idx);
                     Ok(())
                 } else {
@@ -381,6 +385,8 @@ impl Builder {
             None,
             vec![],
         ));
+        // make sure to unselect block too
+        self.selected_block = None;
         self.selected_function = None;
         Ok(())
     }
